@@ -678,6 +678,7 @@ type AOutcome struct {
 	Stopped  bool
 	Facts    map[string][2]uint64
 	SFacts   map[string][2]int64 // ranges of signed sources
+	Excl     map[string][]int64  // single values a signed source is known not to have
 	Nils     map[string]bool // named values found nil (true) / non-nil (false) by the branches of this path
 }
 
@@ -906,7 +907,7 @@ func (ex *Exec) run(s *astate) ([]*astate, *AOutcome, error) {
 			fr.pred, fr.block, fr.pc = fr.block, fr.block.Succs[0], 0
 			continue
 		case *ssa.Panic:
-			return nil, &AOutcome{Conds: s.conds, Mem: s.mem, Trace: s.trace, Panicked: true, Facts: s.facts, SFacts: s.sfacts, Nils: s.nils}, nil
+			return nil, &AOutcome{Conds: s.conds, Mem: s.mem, Trace: s.trace, Panicked: true, Facts: s.facts, SFacts: s.sfacts, Excl: s.excl, Nils: s.nils}, nil
 		case *ssa.Return:
 			var rets []AVal
 			if s.retVals != nil {
@@ -924,7 +925,7 @@ func (ex *Exec) run(s *astate) ([]*astate, *AOutcome, error) {
 				}
 			}
 			if len(s.frames) == 1 {
-				return nil, &AOutcome{Conds: s.conds, Ret: rets, Mem: s.mem, Trace: s.trace, Facts: s.facts, SFacts: s.sfacts, Nils: s.nils}, nil
+				return nil, &AOutcome{Conds: s.conds, Ret: rets, Mem: s.mem, Trace: s.trace, Facts: s.facts, SFacts: s.sfacts, Excl: s.excl, Nils: s.nils}, nil
 			}
 			s.frames = s.frames[:len(s.frames)-1]
 			caller := s.frames[len(s.frames)-1]
@@ -951,7 +952,7 @@ func (ex *Exec) run(s *astate) ([]*astate, *AOutcome, error) {
 				return nil, nil, err
 			}
 			if n := len(s.trace); n > 0 && s.trace[n-1].Stop && s.trace[n-1].Site == x {
-				return nil, &AOutcome{Conds: s.conds, Mem: s.mem, Trace: s.trace, Stopped: true, Facts: s.facts, SFacts: s.sfacts, Nils: s.nils}, nil
+				return nil, &AOutcome{Conds: s.conds, Mem: s.mem, Trace: s.trace, Stopped: true, Facts: s.facts, SFacts: s.sfacts, Excl: s.excl, Nils: s.nils}, nil
 			}
 			if entered {
 				continue
@@ -1602,6 +1603,11 @@ func (ex *Exec) eval(s *astate, fr *aframe, v ssa.Value) AVal {
 	case *ssa.Index:
 		b := ex.val(s, fr, x.X)
 		idx := ex.val(s, fr, x.Index)
+		if b.K == AStr {
+			if v, ok := ex.strIndex(s, b, idx); ok {
+				return v
+			}
+		}
 		if k, ok := idx.ConstVal(); ok {
 			if b.K == AAgg && int(k) < len(b.Elems) {
 				return b.Elems[k]
@@ -1612,17 +1618,8 @@ func (ex *Exec) eval(s *astate, fr *aframe, v ssa.Value) AVal {
 		b := ex.val(s, fr, x.X)
 		idx := ex.val(s, fr, x.Index)
 		if b.K == AStr {
-			if k, ok := idx.ConstVal(); ok {
-				if b.IsConst {
-					if int(k) < len(b.Const) {
-						return AVal{K: AInt, Bits: constBits(uint64(b.Const[k]), 8)}
-					}
-				} else if b.Lo >= 0 {
-					return s.mem.Load(fmt.Sprintf("%s[%d]", b.Path, b.Lo+int(k)), types.Typ[types.Uint8])
-				}
-			}
-			if !b.IsConst && idx.K == AInt {
-				return AVal{K: AInt, Bits: regSource(fmt.Sprintf("%s[%s]", b.Path, NameBits(idx.Bits)), 8)}
+			if v, ok := ex.strIndex(s, b, idx); ok {
+				return v
 			}
 		}
 		return unknownOf("lookup:"+x.Name(), x.Type(), true)
@@ -1690,6 +1687,13 @@ func (ex *Exec) eval(s *astate, fr *aframe, v ssa.Value) AVal {
 			}
 			return AVal{K: ASlice, Path: a.Path, Lo: a.Lo, Len: a.Len}
 		}
+		if b, isB := x.Type().Underlying().(*types.Basic); isB && b.Info()&types.IsString != 0 && a.K == AInt {
+			// string(c) of one character
+			if k, ok := a.ConstVal(); ok && k < 0x80 {
+				return AVal{K: AStr, IsConst: true, Const: string(rune(k)), Len: 1}
+			}
+			return AVal{K: AStr, Path: "chr(" + NameBits(a.Bits) + ")", Lo: 0, Len: -1}
+		}
 		if b, isB := x.Type().Underlying().(*types.Basic); isB && b.Info()&types.IsString != 0 && a.K == ASlice {
 			// string(bytes): a constant when every octet is
 			if a.Len >= 0 && a.Lo >= 0 {
@@ -1736,6 +1740,27 @@ func (ex *Exec) eval(s *astate, fr *aframe, v ssa.Value) AVal {
 		return unknownOf("extract:"+x.Name(), x.Type(), true)
 	}
 	return unknownOf("instr:"+v.Name(), v.Type(), true)
+}
+
+// strIndex is s[i] for a string value.
+func (ex *Exec) strIndex(s *astate, b, idx AVal) (AVal, bool) {
+	if k, ok := idx.ConstVal(); ok {
+		if b.IsConst {
+			if int(k) < len(b.Const) {
+				return AVal{K: AInt, Bits: constBits(uint64(b.Const[k]), 8)}, true
+			}
+			return AVal{}, false
+		}
+		if b.Lo >= 0 {
+			r := s.mem.Load(fmt.Sprintf("%s[%d]", b.Path, b.Lo+int(k)), types.Typ[types.Uint8])
+			registerSources(r)
+			return r, true
+		}
+	}
+	if !b.IsConst && idx.K == AInt {
+		return AVal{K: AInt, Bits: regSource(fmt.Sprintf("%s[%s]", b.Path, NameBits(idx.Bits)), 8)}, true
+	}
+	return AVal{}, false
 }
 
 func derefStruct(t types.Type) *types.Struct {
